@@ -117,9 +117,24 @@ def min(a, axis=None, keepdims=False, split_every=None, out=None):
     )
 
 
+def _reduces_empty_axis(x, axis):
+    """True if one of the reduced axes of ``x`` has length zero"""
+    if axis is None:
+        axes = range(x.ndim)
+    elif isinstance(axis, Integral):
+        axes = (axis,)
+    else:
+        axes = axis
+    for a in axes:  # (``any`` is shadowed by the reduction of that name in this module)
+        # (meta arrays may have fewer dimensions than ``axis`` refers to)
+        if not -x.ndim <= a < x.ndim or x.shape[a] == 0:
+            return True
+    return False
+
+
 def chunk_min(x, axis=None, keepdims=None):
     """Version of np.min which ignores size 0 arrays"""
-    if x.size == 0:
+    if x.size == 0 and _reduces_empty_axis(x, axis):
         return array_safe([], x, ndmin=x.ndim, dtype=x.dtype)
     else:
         return np.min(x, axis=axis, keepdims=keepdims)
@@ -143,7 +158,7 @@ def max(a, axis=None, keepdims=False, split_every=None, out=None):
 
 def chunk_max(x, axis=None, keepdims=None):
     """Version of np.max which ignores size 0 arrays"""
-    if x.size == 0:
+    if x.size == 0 and _reduces_empty_axis(x, axis):
         return array_safe([], x, ndmin=x.ndim, dtype=x.dtype)
     else:
         return np.max(x, axis=axis, keepdims=keepdims)
@@ -286,7 +301,7 @@ def nanmin(a, axis=None, keepdims=False, split_every=None, out=None):
 
 
 def _nanmin_skip(x_chunk, axis, keepdims):
-    if x_chunk.size > 0:
+    if x_chunk.size > 0 or not _reduces_empty_axis(x_chunk, axis):
         with warnings.catch_warnings():
             warnings.filterwarnings(
                 "ignore", "All-NaN slice encountered", RuntimeWarning
@@ -319,7 +334,7 @@ def nanmax(a, axis=None, keepdims=False, split_every=None, out=None):
 
 
 def _nanmax_skip(x_chunk, axis, keepdims):
-    if x_chunk.size > 0:
+    if x_chunk.size > 0 or not _reduces_empty_axis(x_chunk, axis):
         with warnings.catch_warnings():
             warnings.filterwarnings(
                 "ignore", "All-NaN slice encountered", RuntimeWarning
